@@ -14,11 +14,3 @@ Lemma idgen_source_is_the_modelled_one_lemma :
   gen_idgen_next = "self.next += 1 ; Some(RequestId(format!(""A{:04}"", self.next % 10_000)))"%string /\
   gen_idgen_other_methods = [].
 Proof. repeat split; reflexivity. Qed.
-
-(* the checks drive the client through the hook `Client::call_generic` over `Client::from_transport` (any transport)
-   instead of `TlsClient::call` over `TlsClient::connect` (TLS only): the hook's body is `call`'s body token for token,
-   and both build the same `Client { .. }` around `ImapCodec::default().framed(<transport>)` *)
-Lemma hook_is_call_verbatim_lemma :
-  gen_call_body = gen_call_generic_body /\ gen_connect_client = gen_hook_client /\
-  gen_call_body <> "<missing>"%string /\ gen_connect_client <> [].
-Proof. repeat split; try reflexivity; discriminate. Qed.
